@@ -124,5 +124,43 @@ func gate(tier string) map[string]int {
 		"udp_listener_started":                   8,
 		"udp_datagrams_sent":                     10000,
 		"udp_liveness_probe_answered":            100,
+		// rlpx
+		"rlpx_honest_sessions_complete":             300,
+		"rlpx_messages_delivered_equal":             3000,
+		"rlpx_messages_over_1MiB_delivered":         6,
+		"rlpx_oversize_write_refused":               6,
+		"rlpx_limit_sessions":                       6,
+		"rlpx_sweep_positions":                      3000,
+		"rlpx_frame_tamper_detected":                3000,
+		"rlpx_handshake_tamper_detected":            150,
+		"rlpx_fault_flip_frames":                    500,
+		"rlpx_fault_drop_frames":                    500,
+		"rlpx_fault_replay_frames":                  50,
+		"rlpx_fault_swap_frames":                    30,
+		"hostile_auth_presented":                    2000,
+		"hostile_auth_accepted":                     16,
+		"hostile_ack_presented":                     2000,
+		"hostile_frames_presented":                  500,
+		"hostile_frame_bad_header_mac_claims_16MiB": 16,
+		"hostile_frame_delivered_equal":             800,
+		// aqua
+		"aqua_sessions_established":       5000,
+		"aqua_messages_sent":              10000,
+		"aqua_malformed_rejected":         5000,
+		"aqua_wellformed_accepted":        1000,
+		"aqua_reply_checked":              300,
+		"aqua_block_imported_via_fetcher": 4,
+		"aqua_hostile_status_presented":   500,
+		"aqua_node_serving_after_attack":  12,
+		// server
+		"server_raw_clients":                400,
+		"server_hostile_hellos":             40,
+		"server_hostile_frames":             100,
+		"server_bad_frame_ended_connection": 50,
+		"server_aqua_messages":              200,
+		"server_malformed_dropped":          80,
+		"server_peers_released":             6,
+		"server_handlers_released":          6,
+		"server_serving_after_attack":       6,
 	}
 }
